@@ -225,10 +225,11 @@ def run_cases(ctx, cases):
 
 def run(ctx):
     ctx.make_overlay(need_kernel=True)
-    ctx.regen_all()
+    ctx.regen_all(needed=("py2v_diag.py",))  # Gen/DiagGen.v: phase, max_phase_gap, phase_coverage, periods_spanned, MAP index as the source has them now
     ok = ctx.build_models(MODELS)
     if ok:
         ctx.build_props()
+        ctx.build_props("Props/C19g.vo")  # the generated diagnostics are the model
     cases = gen_cases(ctx)
     n_eval = nt = 0
     try:
